@@ -36,6 +36,11 @@ def opIx (a : List String) : String :=
     match addr c, addr au, addr d with
     | some c, some au, some d => fmtIx (closeContextState c au d)
     | _, _, _ => "bad-op"
+  | ["fromprim", v] =>
+    -- integer to variant: exactly 0..12 are instructions / proof types (the pinned index is the number itself)
+    match v.toInt? with
+    | some n => if 0 ≤ n ∧ n ≤ 12 then s!"{n}:{n}" else "none:none"
+    | none => "bad-op"
   | ["type", h] =>
     match ofHex h with
     | some b => match instructionType b with
